@@ -9,12 +9,16 @@ cd "$(dirname "$0")/../harness"
 export GOFLAGS=-mod=mod GOPROXY=off GOSUMDB=off GOTOOLCHAIN=local CGO_ENABLED=${CGO_ENABLED:-0}
 REPO=${VERIF_REPO:-/repo}
 PKG=${VERIF_HARNESS_PKG:-.}
+# VERIF_COVER=1: statement-coverage instrumentation of the library's packages (thorough tier; the evidence then says
+# how much of the implementation the correspondence run executed)
+COVER=""
+[ -n "$VERIF_COVER" ] && COVER="-cover -coverpkg=vharness/...,github.com/iden3/go-schema-processor/v2/..."
 if [ "$REPO" != "/repo" ]; then
   OUT=${VERIF_HARNESS_OUT:?VERIF_HARNESS_OUT must be set with VERIF_REPO}
   MD=$(dirname "$OUT")/gomod; mkdir -p "$MD"
   sed "s|=> /repo\$|=> $REPO|" go.mod > "$MD/go.mod"
   cat "$REPO/go.sum" go.sum.extra 2>/dev/null | sort -u > "$MD/go.sum"
-  exec go build -modfile="$MD/go.mod" -tags verif -o "$OUT" "$PKG"
+  exec go build $COVER -modfile="$MD/go.mod" -tags verif -o "$OUT" "$PKG"
 fi
 cmp -s /repo/go.sum go.sum.base 2>/dev/null || { cp /repo/go.sum go.sum.base; cat /repo/go.sum go.sum.extra 2>/dev/null | sort -u > go.sum; }
 [ -f go.sum ] || cat /repo/go.sum go.sum.extra 2>/dev/null | sort -u > go.sum
@@ -22,4 +26,4 @@ if [ -f go.sum.extra ] && ! grep -qxFf go.sum.extra go.sum 2>/dev/null; then cat
 OUT=${VERIF_HARNESS_OUT:-vharness}
 [ "$PKG" != "." ] && [ -z "$VERIF_HARNESS_OUT" ] && OUT=bin/$(basename "$PKG")
 mkdir -p bin
-exec go build -tags verif -o "$OUT" "$PKG"
+exec go build $COVER -tags verif -o "$OUT" "$PKG"
